@@ -16,6 +16,7 @@ from common import (NCPU, cached, SPEC, MachineryError, Outcome, drive, run_para
                     spec_hash, tagged_lines, tlc, tlc_ok, tlc_violation, workdir)
 
 PID = "C14"
+EXTRA_OPS = {"get_district", "get_no_effect_on_outcomes", "get_intervened_ancestors", "is_a_fixable", "is_p_fixable"}
 
 
 def _gen(cfg: str, wd, **kw):
@@ -83,12 +84,16 @@ def run(tier: str) -> int:
         return json.loads(job[1].read_text())
 
     results = run_parallel(one, jobs)
+    diagnostics: list = []
     steps = sum(r["steps"] for r in results)
     ops: dict[str, int] = {}
     for r in results:
         for k, v in r["ops"].items():
             ops[k] = ops.get(k, 0) + v
         for f in r["fails"]:
+            if f["op"] in EXTRA_OPS:   # documented helpers outside the list of C14: diagnostic only
+                diagnostics.append({k: f[k] for k in ("op", "arg", "clause") if k in f})
+                continue
             g0 = f["behaviour"][0]["g"]
             prefix = [(st["op"], st["arg"]) for st in f["behaviour"][1 : f["step"] + 1]]
             key = json.dumps({"g": g0, "ops": prefix}, sort_keys=True)
@@ -102,6 +107,9 @@ def run(tier: str) -> int:
             uniq.append(f)
     out.failures = uniq
 
+    if diagnostics:
+        print(f"DIAGNOSTIC property={PID} helper operations outside the property's list disagree with MixedGraph.tla: "
+              f"{len(diagnostics)} steps, e.g. {diagnostics[0]}")
     nontrivial = sum(1 for b in behs if b[0]["g"]["d"] and b[0]["g"]["b"])
     coverage = {
         "states": mcres["distinct"] + gen_m3["distinct"] + sim3["generated"] + sim5["generated"],
@@ -117,6 +125,7 @@ def run(tier: str) -> int:
         "replayed_steps": steps,
         "steps_per_operation": ops,
         "insertion_orders": n_orders,
+        "diagnostic_operations": sorted(EXTRA_OPS), "diagnostic_failures": len(diagnostics),
         "distinct_nontrivial": nontrivial,
         "rule": "behaviour = initial mixed graph + operation sequence; non-trivial = initial graph has "
                 "both directed and bidirected edges; exhaustive over all 512 mixed graphs on 3 nodes x "
